@@ -141,7 +141,14 @@ fn build(p: &mut P, alt: bool) -> &'static dyn Aml {
             } else {
                 // both public ways of making an empty builder are crate constructors
                 let mut b = if kids.len() % 2 == 1 { PackageBuilder::default() } else { PackageBuilder::new() };
-                for k in &kids { b.add_element(*k); }
+                // a builder may be looked at while it is being filled (serialised, summed, nested into another
+                // builder) and extended afterwards: every third builder is serialised after each add
+                let peek = kids.len() % 3 == 2;
+                if peek { let mut scratch = Vec::new(); b.to_aml_bytes(&mut scratch); }
+                for k in &kids {
+                    b.add_element(*k);
+                    if peek { let mut scratch = Vec::new(); b.to_aml_bytes(&mut scratch); let _ = acpi_tables::u8sum(&b); }
+                }
                 leak(b)
             }
         }
